@@ -97,6 +97,13 @@ def _build_c09(inputs):
             with open(os.path.join(d4, "img.cue"), "w") as f:
                 f.write(head + 'FILE "images/data.bin" BINARY\n  TRACK 01 MODE1/2048\n    INDEX 01 00:00:00\n')
             paths["cue->subdir/raw"] = os.path.join(d4, "img.cue")
+            # file names are the user's: an upper-case sheet name, a bin name with blanks
+            d6 = w.sub("cue_names")
+            with open(os.path.join(d6, "sampler disc 1.img"), "wb") as f:
+                f.write(raw)
+            with open(os.path.join(d6, "DISC.CUE"), "w") as f:
+                f.write(head + 'FILE "sampler disc 1.img" BINARY\n  TRACK 01 MODE1/2048\n    INDEX 01 00:00:00\n')
+            paths["CUE(upper-case name)->raw(name with blanks)"] = os.path.join(d6, "DISC.CUE")
             # an unrelated all-audio sheet opened earlier in the same process must not leak into the later ones
             d5 = w.sub("other_disc")
             with open(os.path.join(d5, "audio.bin"), "wb") as f:
